@@ -1128,9 +1128,24 @@ impl<'a, 'b> Script<'a, 'b> {
                 self.stat("timeout-with-forged-qc");
             }
             0 => {
+                // a vote naming the tip under a round that is not the tip's: no honest authority signs
+                // such a vote, so it comes from the one Byzantine puppet only (votes of several puppets
+                // for one (block, wrong round) pair would add up to a "certificate" that needs honest
+                // signers to exist); without such a puppet, an ordinary late vote for an old block
                 let d = self.tip.clone().unwrap_or_else(|| sha512_32(b"none"));
-                let v = self.w.vote_for(p, d, round);
-                self.send_to_sut(p, &ConsensusMessage::Vote(v)).await;
+                match self.byzantine_puppet() {
+                    Some(b) => {
+                        let v = self.w.vote_for(b, d, round);
+                        self.send_to_sut(b, &ConsensusMessage::Vote(v)).await;
+                    }
+                    None => {
+                        // (a late vote for the oldest block the node processed, under its own round)
+                        let old = self.delivered.first().cloned().unwrap_or(d);
+                        let r = self.blocks.get(&old).map_or(1, |b| b.round);
+                        let v = self.w.vote_for(p, old, r);
+                        self.send_to_sut(p, &ConsensusMessage::Vote(v)).await;
+                    }
+                }
             }
             1 => {
                 let tip = if self.tip.is_none() { genesis_digest() } else { self.sound_tip() };
